@@ -1,4 +1,4 @@
-import Hive.Model.C12aMap
+import Hive.Model.C12aShrink
 /-!
 # Model of `randommap.RandomMap` (ds/randommap/random_map.go) for C12
 
@@ -87,6 +87,7 @@ inductive Op
   | has (k : Nat)
   | del (k : Nat)
   | size | keys | values | forEach
+  | forEachN (n : Nat)       -- ForEach with a consumer that stops after n visits
   | randKey (c : Nat)
   | randEntry (c : Nat)
   | randUnique (n : Nat) (perm : List Nat)
@@ -110,6 +111,7 @@ def step (s : St) : Op → St × Out
   | .keys => (s, .list (keysOut s))
   | .values => (s, .list (s.raw.map (·.2.value)))
   | .forEach => (s, .pairs (s.raw.map (fun p => (p.1, p.2.value))))
+  | .forEachN n => (s, .nat (Shrink.visits n s.raw.length))
   | .randKey c => (s, .val (randKey s c))
   | .randEntry c => (s, .val (randEntry s c))
   | .randUnique n perm => (s, .list (randUnique s n perm))
@@ -129,10 +131,8 @@ The harness cannot control `math/rand`; for the random picks it reports what the
 returned and the model answers with the set-level facts (`member`, `ok <count>`). -/
 open Hive.Proto
 
-def stepLine (s : St) (toks : List String) : St × String :=
+def stepCore (s : St) (toks : List String) : St × String :=
   match toks with
-  | ["new", _, _, _] => (init, "ok")
-  | ["new", "default"] => (init, "ok")
   | ["set", k, v] =>
     match k.toNat?, v.toNat? with
     | some k, some v => (set s k v, "ok")
@@ -147,6 +147,7 @@ def stepLine (s : St) (toks : List String) : St × String :=
   | ["keys"] => (s, showNatList (keysOut s))
   | ["values"] => (s, showNatList (sortNat (s.raw.map (·.2.value))))
   | ["foreach"] => (s, showPairs (sortPairs (s.raw.map (fun p => (p.1, p.2.value)))))
+  | ["foreachn", n] => match n.toNat? with | some n => (s, toString (Shrink.visits n s.raw.length)) | none => (s, "bad-op")
   | ["index", k] =>    -- white-box: the entry's keyIndex
     match k.toNat? with
     | some k => (s, showOptVal ((AL.get s.raw k).map (·.keyIndex)))
@@ -177,5 +178,35 @@ def stepLine (s : St) (toks : List String) : St × String :=
           then s!"ok {want}" else "bad")
     | _, _ => (s, "bad-op")
   | _ => (s, "bad-op")
+
+/-- Driver state: the options and the deletion counter of the inner ShrinkingMap ride along (white
+box; by the ShrinkingMap theorems nothing else can observe them). -/
+structure DSt where
+  o : Shrink.Opts
+  s : St
+  deleted : Nat
+deriving Repr
+
+def dinit : DSt := { o := ⟨0, 1, 0⟩, s := init, deleted := 0 }
+
+/-- `k<keys slice> i[<keyIndex of each of its keys>] n<inner size> d<inner deletedKeys>`. -/
+def showState (d : DSt) : String :=
+  s!"k{showNatList d.s.keys} i[{" ".intercalate (d.s.keys.map (fun k => showOptVal ((AL.get d.s.raw k).map (·.keyIndex))))}] n{d.s.raw.length} d{d.deleted}"
+
+def stepLine (d : DSt) (toks : List String) : DSt × String :=
+  match toks with
+  | ["new", "default"] => ({ o := ⟨10, 1, 100⟩, s := init, deleted := 0 }, "ok")
+  | ["new", a, b, c] =>
+    match a.toInt?, b.toNat?, c.toInt? with
+    | some a, some b, some c => if b = 0 then (d, "bad-op") else ({ o := ⟨a, b, c⟩, s := init, deleted := 0 }, "ok")
+    | _, _, _ => (d, "bad-op")
+  | _ =>
+    let r := stepCore d.s toks
+    -- the inner map's `delete`: count, then rebuild (counter back to 0) when the thresholds say so
+    let del :=
+      if r.1.raw.length < d.s.raw.length then
+        (if Shrink.shouldShrink d.o (d.deleted + 1) r.1.raw.length then 0 else d.deleted + 1)
+      else d.deleted
+    ({ d with s := r.1, deleted := del }, r.2)
 
 end Hive.C12a.RMap
